@@ -154,6 +154,31 @@ Proof.
   - destruct i as [|[|[|i]]]; vm_compute; try exact I; destruct i; exact I.
 Qed.
 
+(* connection life cycles: whatever happened before (batches under way, writes that never completed), once every
+   connection has ended nothing is in use any more — in either protocol *)
+Lemma no_live_no_use : forall s, live s = 0 -> in_use s = 0.
+Proof.
+  induction s as [|[w|] r IH]; simpl; intros H; [reflexivity|discriminate|exact (IH H)].
+Qed.
+
+Theorem all_ended_all_returned : forall c evs,
+  let s := fst (wrun c [] evs) in live s = 0 -> in_use s = 0 /\ available c s = capacity c.
+Proof.
+  intros c evs s H. pose proof (no_live_no_use s H) as U. split; [exact U|]. unfold available. rewrite U. apply Nat.sub_0_r.
+Qed.
+
+(* and a connection that ends gives back exactly what it held *)
+Theorem drop_returns_its_buffers : forall c s i w s',
+  get_slot s i = Some w -> wstep c s (WDrop i) = WOk s' -> in_use s' + conn_use (Some w) = in_use s.
+Proof.
+  intros c s i w s' Hg Hs. unfold wstep in Hs. rewrite Hg in Hs. inversion Hs; subst s'.
+  destruct (set_none s i w Hg) as [A [B C]].
+  rewrite (in_use_split s), (in_use_split (set_slot s i None)). simpl. unfold b2n in B. destruct (w_first w); lia.
+Qed.
+
+Print Assumptions all_ended_all_returned.
+Print Assumptions drop_returns_its_buffers.
+
 Print Assumptions guarded_never_waits.
 Print Assumptions guarded_reachable_bound.
 Print Assumptions unguarded_starves.
